@@ -89,9 +89,11 @@ func (s Step) mechanism() config.MechanismConfig {
 
 // Case is one execution (also the replay format).
 type Case struct {
-	Chain  []Step            `json:"chain"`
-	Auth   string            `json:"authorization"`            // name of the Authorization header value
-	Sess   string            `json:"session"`                  // X-Session header (credential of the generic authenticator)
+	Chain []Step `json:"chain"`
+	Auth  string `json:"authorization"` // name of the Authorization header value
+	Sess  string `json:"session"`       // X-Session header (credential of the generic authenticator)
+	// Place: where the session credential travels instead of the X-Session header (decision service only)
+	Place  string            `json:"session_placed_in,omitempty"`
 	Remote map[string]string `json:"remote_outcome,omitempty"` // per remote-using type: ok | 5xx | transport-error
 	Via    string            `json:"via"`                      // direct | decision
 }
@@ -381,7 +383,26 @@ func (f *fixture) execute(idx int, cs *Case) observation {
 		}
 
 		if sess != "" {
-			req.Header = append(req.Header, [2]string{sessionHeader, sess})
+			switch cs.Place {
+			case "":
+				req.Header = append(req.Header, [2]string{sessionHeader, sess})
+			case "query":
+				req.RawQuery = "session=" + sess
+			case "query+malformed-pair-elsewhere":
+				req.RawQuery = "session=" + sess + "&trace=100%zz"
+			case "query-first-of-two":
+				req.RawQuery = "session=" + sess + "&session="
+			case "cookie":
+				req.Header = append(req.Header, [2]string{"Cookie", "session=" + sess})
+			case "cookie-among-others":
+				req.Header = append(req.Header, [2]string{"Cookie", "a=1; session=" + sess + "; b=2"})
+			case "cookie-first-of-two":
+				req.Header = append(req.Header, [2]string{"Cookie", "session=" + sess + "; session="})
+			case "cookie-first-of-two-header-lines":
+				req.Header = append(req.Header, [2]string{"Cookie", "session=" + sess}, [2]string{"Cookie", "session="})
+			default:
+				panic("unknown placement " + cs.Place)
+			}
 		}
 
 		resp := f.apps.DoDecision(req)
@@ -555,7 +576,7 @@ func compareDecision(c *engine.Ctx, f *fixture, idx int, cs *Case, direct observ
 	c.Eval(1)
 
 	if dec.OK != direct.OK || dec.Subject != direct.Subject {
-		c.Violation("decision-service-differs-from-direct-rule-execution",
+		c.Violation("decision-service-differs-from-direct-rule-execution"+x(ds.Place != "", "/session-in-"+ds.Place, ""),
 			fmt.Sprintf("%s: direct: %s; decision service: %s", cs, direct, dec), &ds)
 	}
 
@@ -564,6 +585,17 @@ func compareDecision(c *engine.Ctx, f *fixture, idx int, cs *Case, direct observ
 	} else {
 		c.Outcome(fmt.Sprintf("decision service: denied with status %d", dec.Status))
 	}
+}
+
+var placements = []string{"query", "query+malformed-pair-elsewhere", "query-first-of-two", "cookie", "cookie-among-others",
+	"cookie-first-of-two", "cookie-first-of-two-header-lines"}
+
+func x(cond bool, a, b string) string {
+	if cond {
+		return a
+	}
+
+	return b
 }
 
 func run(c *engine.Ctx) {
@@ -645,6 +677,16 @@ func run(c *engine.Ctx) {
 			// the same case through the assembled decision service (real request context, real error mapping)
 			if len(chain) <= 2 {
 				compareDecision(c, f, idx, cs, direct)
+
+				// the session credential in the other places the generic authenticator reads it from: same decision
+				// (crossed with the requests that carry no Authorization header)
+				if sess != "none" && sess != "" && auth == "none" {
+					for _, p := range placements {
+						ps := *cs
+						ps.Place = p
+						compareDecision(c, f, idx, &ps, direct)
+					}
+				}
 			}
 		})
 	}
@@ -719,7 +761,7 @@ func Check() *engine.Check {
 			"takes at least one fallback decision).",
 		Assumptions: []string{
 			"each type occurs at most once per chain; credentials of basic_auth, jwt and oauth2_introspection come from the one Authorization header, " +
-				"those of generic from the X-Session header (query/body/cookie sources stay empty)",
+				"those of generic from the X-Session header; through the decision service also from the query (alone, next to a malformed pair, first of two) and from a cookie (alone, among others, first of two in one or two header lines), with the same decision demanded",
 			"jwt: an opaque (non-JWT) bearer token counts as 'no credentials of its kind' (docs/content/docs/rules/regular_rule.adoc: 'the jwt " +
 				"authenticator ... will be only executed, if the token is in a JWT format'); a JWS with alg none, three garbage segments, a bare " +
 				"scheme word, non-base64 / colon-less Basic credentials are 'malformed' = don't-care, the observed side is recorded as outcome",
